@@ -34,12 +34,14 @@ def alphabet(nx=4, safe=False, unkey=None, variant='plain'):
             val = ('frac', recv[0])
         elif variant == 'plain':
             val = stubs._value(*recv)
+        elif variant == 'big':
+            val = stubs._bvalue(*recv)
         elif variant in ('ignore_y', 'ignore_1', 'ignore_w'):
             val = stubs._value(recv[0], 0)
         else:
             val = stubs._value(int(round(recv[0])), 0)
         E.append({'args': args, 'kw': kw, 'recv': recv, 'cls': cls, 'kind': kind, 'expect': val})
-    if variant == 'plain':
+    if variant in ('plain', 'big'):      # (big: the same calls, results of a few hundred KB)
         for x in xs:
             add((x,), {}, (x, 0), (x, 0))
         add((1, 0), {}, (1, 0), (1, 0))
@@ -214,7 +216,7 @@ class Recorder(object):
                 unkey = stubs.BAD_BY_KIND.get(kind, stubs.BadRepr)()
         self.variant = cfg.get('variant', 'plain')
         self.args = alphabet(cfg.get('nx', 4), self.safe, unkey, self.variant)
-        self.funcs = {'plain': stubs.FUNCS, 'eqtypes': stubs.EFUNCS, 'mixed': stubs.MFUNCS, 'long': stubs.LFUNCS, 'ignore_w': stubs.WFUNCS, 'frac': stubs.QFUNCS, 'ignore_y': stubs.GFUNCS, 'ignore_1': stubs.GFUNCS, 'tol0': stubs.HFUNCS,
+        self.funcs = {'plain': stubs.FUNCS, 'big': stubs.BFUNCS, 'eqtypes': stubs.EFUNCS, 'mixed': stubs.MFUNCS, 'long': stubs.LFUNCS, 'ignore_w': stubs.WFUNCS, 'frac': stubs.QFUNCS, 'ignore_y': stubs.GFUNCS, 'ignore_1': stubs.GFUNCS, 'tol0': stubs.HFUNCS,
                       'tol1': stubs.TFUNCS}[self.variant]
         self.ni = cfg.get('ni', 1)
         self.na = cfg.get('na', 2)
